@@ -20,8 +20,9 @@ def check_case(ctx, ld, case, reqs, pend):
     ctx.hit("widths:coord%d/common%d" % (case.get("coord_class", -1), case.get("common_class", -1)))
     if any(len(r) == 0 for _, r in entries):
         ctx.hit("has_empty_rowids")
-    sv = X.impl_save(entries, common, case.get("layout"))
+    sv = X.impl_save(entries, common, case.get("layout"), case.get("handle"))
     ctx.hit("rowid_layout:%s" % (case.get("layout") or "contiguous"))
+    ctx.hit("file_handle:%s" % (case.get("handle") or "TemporaryFile"))
     if sv[0] != "ok":
         ctx.oracle_fail("save raised %s" % sv[1], X.small_desc(case), cls="C10-save-raises")
         return
@@ -86,6 +87,9 @@ def run(ctx):
         for case in X.exhaustive_cases():
             check_case(ctx, ld, case, reqs, pend)
         ctx.exhaustive.append("arity<=2 x <=2 entries x 4x4 width classes x row-id lists from {[],[0],[0,2^32-1]}")
+        # the file handle the caller passes: write-only, append (new file), append+read, update, unbuffered
+        for hd in ("wb", "ab", "a+b", "r+b", "unbuffered"):
+            check_case(ctx, ld, {"entries": [[[1], [0, 2, 5]], [[300], [1, 4, X.U32]]], "common": 0, "arity": 1, "handle": hd}, reqs, pend)
         # row-id arrays that are non-contiguous views (a slice with a step, a matrix column, a reversed view)
         for lay in ("stride2", "column", "backwards"):
             for arity in (1, 2):
@@ -115,7 +119,7 @@ def replay(ctx, rep):
         c = dict(c, entries=X.expand_long(c))
     ld = X.Loader()
     try:
-        sv = X.impl_save(c["entries"], c["common"], c.get("layout"))
+        sv = X.impl_save(c["entries"], c["common"], c.get("layout"), c.get("handle"))
         if sv[0] != "ok":
             return False
         lo = ld.load(sv[1])
